@@ -144,12 +144,13 @@ CHECKS.update({
    design_ref='DESIGN.md 0.2, 5 C03', note=NOTE_STD + ' EQU/FOR/;assert programs are covered by differential testing against the by-construction meaning; the end-to-end theorem covers labelled instructions with ORG/END in every layout.',
    technique='Coq end-to-end theorem for EQU/FOR-free programs (positioned-parser symbolic execution by induction over documents, refinement of the compile stage to the independent meaning function, lexer lemma for arbitrary spacing) + compile-stage lemmas + per-run two-stage differential correspondence against the independent meaning function'),
  'C08': dict(
-   text=('PARTIAL. Proved on the literal model of the expander state machine (model/ForExpand.v): ONE PASS as a whole (C08_one_pass_partial) - for any lines in front of the first block, its header, a body of arbitrary lines with properly nested inner blocks, the closing ROF and the rest of the stream, the pass ends and sends exactly the front lines (labels re-attached), the block written out count times with the block labels in place, and the rest unchanged. Also, for every stream, label list and count: the body is sent count times with the counter replaced by 1..count (nothing for count 0) and all other tokens kept; '
-         'from the ROF line on (also when it is the last line and lacks a newline), whatever state was reached, exactly the block is sent - first iteration with the labels written before the counter standing in front of the body line found for them, iterations 2..count plain, with a count below one only the labels - and then the rest of the program is copied unchanged up to EOF; '
-         'on the FOR line the count is the value of the expression over the pre-scanned EQU symbols and the predefined constants, the name before FOR is the counter, earlier names are block labels, which keep their names; their place is the first line of the body itself that is an instruction or the header of a nested block; a colon after a body label is dropped. '
-         'That a pass and the pass driver always end is part of C05. NOT proved: collection of the body with nesting depth, copying of the lines before the block, the repeat-until-no-FOR driver and the composition into '
-         'CompileWarrior(p) = CompileWarrior(unroll(p)) (kept as C08_full_statement). That statement is decided on every run by the correspondence: generated programs (blocks in sequence, nesting to 3, counts 0..6 from literals and EQUs, counters in inner/outer expressions, block labels) and their extracted unrollings '
+   text=('PARTIAL. Proved on the literal model (model/ForExpand.v, Scanner.v, Compile.v pass_loop): ASSEMBLES LIKE ITS UNROLLING at the token level (C08_assembles_like_unrolling_partial) - if the tokens of a text unroll, block by block, to the tokens of another text (relation unrolls: k times the first block of the stream is written out, its count evaluated over the EQU symbols defined in front of it and the predefined constants, until no block is left), '
+         'compile_warrior gives the same result for both texts; THE PASSES ADD UP (C08_passes_partial): the driver returns exactly the unrolled stream whenever it has more than k passes; ONE PASS OF THE DRIVER (C08_pass_driver_partial), symbol scanner included: the scanner run symbolically over the lines in front of the block (labels, colons, comments, EQU values with comments skipped, redefinition error, END line hiding the block, the FOR itself); '
+         'ONE PASS of the expander as a whole (C08_one_pass_partial) - for any lines in front of the first block, its header, a body of arbitrary lines with properly nested inner blocks, the closing ROF and the rest of the stream, the pass ends and sends exactly the front lines (labels re-attached), the block written out count times with the block labels in place, and the rest unchanged. Also, for every stream, label list and count: the body is sent count times with the counter replaced by 1..count (nothing for count 0) and all other tokens kept; '
+         'from the ROF line on (also when it is the last line and lacks a newline) exactly the block is sent - first iteration with the labels written before the counter standing in front of the body line found for them, iterations 2..count plain, with a count below one only the labels - and then the rest is copied unchanged; '
+         'on the FOR line the count is the value of the expression over the pre-scanned EQU symbols and the predefined constants, the name before FOR is the counter, earlier names are block labels. A concrete program is shown to unroll and to be assembled like its unrolling BY the theorem. '
+         'That a pass and the pass driver always end is part of C05. NOT proved: that the relation unrolls holds between the rendering of every abstract program and the rendering of its Render.unroll (each instance is a finite derivation), and the composition with the reference meaning (kept as C08_full_statement). That statement is decided on every run by the correspondence: generated programs (blocks in sequence, nesting to 3, counts 0..6 from literals and EQUs, counters in inner/outer expressions, block labels) and their extracted unrollings '
          'assembled by gmars and by the extracted model, compared with each other and with the extracted meaning.'),
-   design_ref='DESIGN.md 5 C08', note=NOTE_STD + ' The end-to-end unrolling equality is covered by differential testing; only the unrolling arithmetic and the ROF / FOR-line phases of the state machine are theorems.',
-   technique='Coq lemmas on the expander state machine (symbolic execution of the ROF phase by induction over the stream, unrolling arithmetic) + per-run differential correspondence of program vs extracted unrolling vs meaning'),
+   design_ref='DESIGN.md 0.2, 5 C08', note=NOTE_STD + ' The link between the abstract unroller and the token-level unrolling relation is covered by differential testing; the expander, the scanner and the pass driver are theorems.',
+   technique='Coq theorems on the expander, scanner and pass-driver state machines (symbolic execution by induction over positioned machines, induction over the unrolling derivation) + per-run differential correspondence of program vs extracted unrolling vs meaning'),
 })
